@@ -217,7 +217,7 @@ def correspond(ctx):
         systematic = sig == 'c06:chol2-rank-deficient-G' and len(items) >= 4 and len(items) > 0.5 * chol2_runs[0]
         for _, st, what, case in items:
             ctx.violation(sig + (':systematic' if systematic else '') + (':rare-numerical-breakdown' if rare and sig != 'c06:chol2-rank-deficient-G' else ''), what, case)
-    ctx.cov['chol2_rank_deficient_runs'] = chol2_runs[0]
+    ctx.cov['chol2_rank_deficient_population'] = '%d runs of kkt_chol2 on a rank-deficient G in this run (the population of the listed finding; varies with the seed)' % chol2_runs[0]
     ctx.cov.update({'evaluations': evals, 'distinct_nontrivial': len(distinct),
                     'rule': 'dispatch: 9 entry points x %d kktsolver values (exhaustive); metamorphic: %d planted well-posed cone LPs/QPs '
                             '(random cone structure l/q/s, equality constraints) x all presentations of the property list that apply; '
